@@ -11,3 +11,7 @@ pub use node_storage::*;
 pub(crate) use resource_node::*;
 pub(crate) use stat_prepare_slot::*;
 pub(crate) use stat_slot::*;
+
+// verification hook: make the statistic structures reachable from the correspondence harness
+#[cfg(sentinel_verif)]
+pub use {base::*, resource_node::*, stat_prepare_slot::*, stat_slot::*};
